@@ -42,6 +42,20 @@ def gen(rng, n):
             if d.get("CID_LEN", 8) == 0:
                 d["CID_LEN"] = 4
         if rng.chance(1, 5):
+            # a stream written and finished in one go, several packets long, under heavy loss: heads and
+            # middles are retransmitted after the tail (and its FIN) went out
+            d = S.base(rng, small=True)
+            d["STREAM_BYTES"] = rng.choice([3000, 8000, 20000])
+            d["WRITE_CHUNK"] = 100000
+            d["READ_MAX"] = rng.choice([100, 100000])
+            d["READ_ORDERED"] = rng.choice([1, 1, 0])
+            d["LOSS"] = rng.choice([100, 200, 300])
+            d["DUP"] = rng.choice([0, 50])
+            d["DELAY_MAX"] = d["DELAY_MIN"] * rng.choice([1, 2])
+            d["NUNI"] = rng.range(1, 2)
+            d["NBIDI"] = rng.range(0, 1)
+            d["GSO"] = rng.choice([1, 1, 5])
+        if rng.chance(1, 5):
             # receive-stream state recycling: small stream limits, several streams one after the other, the
             # first one stopped (or read) by the receiver; loss-free, so every later stream must arrive
             d = S.base(rng, small=True)
